@@ -1,4 +1,5 @@
 import Rdpgw.Model.UserToken
+import Rdpgw.Generated.Tokens
 
 /-!
 # C15 — user tokens verify only if minted under the configured keys and unexpired
@@ -65,7 +66,7 @@ theorem mode_separation (now now' : Nat) (u : Bytes) :
 theorem subject (signMode : Bool) (now now' : Nat) (u : Bytes) (h : now' ≤ now + 360) :
     verify signMode (mint signMode now u) now' = some u := by
   have hle : now' ≤ now + 300 + 60 := by omega
-  cases signMode <;> simp [verify, mint, timeOk, hle, innerOk]
+  cases signMode <;> simp [verify, mint, timeOk, lifetime, hle, innerOk]
 
 /-- expired tokens are refused -/
 theorem expired_refused (signMode : Bool) (now now' : Nat) (u : Bytes) (h : now + 360 < now') :
@@ -109,5 +110,25 @@ theorem status_map (isGet : Bool) (param : Option Bytes) (result : Bytes → Opt
 /-- non-vacuity -/
 example : verify true (mint true 1000 [117]) 1200 = some [117] := by decide
 example : verify false (mint false 1000 [117]) 1200 = some [117] := by decide
+
+/-! ### Facts read off `cmd/rdpgw/security` (regenerated from the source on every run) -/
+
+open Rdpgw.Generated in
+theorem facts_user_lifetime :
+    ∀ e ∈ Tokens.expiries, e.1 = "GenerateUserToken" → e.2 = UserToken.lifetime * 1000000000 := by decide
+
+open Rdpgw.Generated in
+theorem facts_user_issuer :
+    ∀ e ∈ Tokens.issuers, (e.1 = "GenerateUserToken" ∨ e.1 = "UserInfo") → e.2 = Cookie.issuer := by decide
+
+/-- the two parsers of `UserInfo` admit direct key agreement, A128CBC-HS256 content encryption and
+    (in sign-and-encrypt mode) HS256 signatures — nothing else -/
+theorem facts_user_parsers :
+    ∀ e ∈ Generated.Tokens.parsers, e.1 = "UserInfo" →
+      (e.2.1 = "ParseSignedAndEncrypted" ∧ e.2.2 = ["DIRECT", "A128CBC_HS256", "HS256"]) ∨
+      (e.2.1 = "ParseEncrypted" ∧ e.2.2 = ["DIRECT", "A128CBC_HS256"]) := by decide
+
+theorem facts_user_algs :
+    ∀ e ∈ Generated.Tokens.mintAlgs, e.1 = "GenerateUserToken" → e.2 ∈ ["A128CBC_HS256", "DIRECT", "HS256"] := by decide
 
 end Rdpgw.C15
